@@ -387,3 +387,39 @@ Proof.
   - apply Forall_zskipn. exact Hn.
 Qed.
 End Stream.
+
+(* ---- since fix "a finished value inside an open container does not end the text": a call that returns a value
+   always ends at depth 0, whatever the bytes (NUL-terminated or not) — the corner that parse_total had to
+   exclude no longer exists, and every outcome leaves a well-formed parser *)
+Section Depth0.
+Variable sb : list byte -> Z.
+
+Theorem success_depth0 t a t' v :
+  wf_tok t -> hs_ok t -> parse_ex sb t a = PR t' (Some v) -> depth t' = 0.
+Proof.
+  intros Hwf Hh Ha. unfold parse_ex in Ha.
+  set (t0 := set_err (set_off t 0) TE_success) in *. set (l0 := mkloc 1 0 JNull None) in *.
+  destruct (run sb a t0 l0) as [t1 l1|] eqn:R; [|discriminate].
+  destruct (run_hs sb a t0 l0 t1 l1 Hwf I Hh eq_refl R) as (_ & _ & H3).
+  assert (Hd : depth (reset_levels t1) = depth t1).
+  { unfold depth, reset_levels. cbn [stack set_stack]. f_equal. induction (stack t1) as [|x r IH]; [reflexivity|]. cbn [map zlen]. rewrite IH. reflexivity. }
+  unfold finish_call in Ha.
+  destruct (lc l1 =? 0) eqn:Ez.
+  - (* the call consumed a NUL: the end-of-text test *)
+    cbn [negb andb] in Ha.
+    destruct (validate_utf8 t1 && negb (nbytes l1 =? 0)).
+    { destruct (depth (set_err t1 TE_utf8) =? 0); cbn [negb orb andb] in Ha;
+        repeat match type of Ha with context [if ?b then _ else _] => destruct b end; cbn [err set_err] in Ha; discriminate. }
+    destruct (depth t1 =? 0) eqn:Ed.
+    + cbn [negb orb] in Ha.
+      match type of Ha with context [if ?b then set_err ?x TE_eof else _] => destruct b end; [cbn [err set_err] in Ha; discriminate|].
+      destruct (err t1); try discriminate. inversion Ha; subst. rewrite Hd. lia.
+    + cbn [negb orb andb] in Ha. cbn [err set_err] in Ha. discriminate.
+  - cbn [negb andb] in Ha.
+    destruct (validate_utf8 t1 && negb (nbytes l1 =? 0)).
+    { match type of Ha with context [if ?b then set_err ?x TE_unexpected else _] => destruct b end; cbn [err set_err] in Ha; discriminate. }
+    match type of Ha with context [if ?b then set_err ?x TE_unexpected else _] => destruct b end; [cbn [err set_err] in Ha; discriminate|].
+    destruct (err t1) eqn:Ee; try discriminate. inversion Ha; subst.
+    rewrite Hd. apply (H3 eq_refl). lia.
+Qed.
+End Depth0.
